@@ -92,13 +92,21 @@ def strval(I, st, v):
     v = deref(I, st, v)
     while isinstance(v, Ref): v = I.deref_load(st, v)
     return v.d.get('s') if isinstance(v, Obj) else None
+def slice_cells(I, st, v):
+    """cells of a slice value: a Vec / slice object, or an array aggregate `[a, b, ..]` coerced to a slice"""
+    v = deref(I, st, v)
+    if isinstance(v, Obj) and 'elems' in v.d: return list(v.d['elems'])
+    if isinstance(v, Adt):
+        idx = sorted(k[1] for k in v.fields if k[0] is None and isinstance(k[1], int))
+        if idx == list(range(len(idx))): return [st.alloc(v.fields[(None, i)]) for i in idx]
+    raise Stuck(f'slice of {v!r}')
 def m_strslice_contains(I, st, fr, callee, args, dty, dest, ret_bb):
-    vec = deref(I, st, args[0]); want = strval(I, st, args[1])
-    have = [strval(I, st, Ref(c)) for c in vec.d['elems']]
+    want = strval(I, st, args[1])
+    have = [strval(I, st, Ref(c)) for c in slice_cells(I, st, args[0])]
     if want is None or any(h is None for h in have): raise Stuck('contains over non-concrete role names')
     return z3.BoolVal(want in have)
 def m_strslice_to_vec(I, st, fr, callee, args, dty, dest, ret_bb):
-    vec = deref(I, st, args[0]); return Obj('vec', elems=[st.alloc(clone(st.heap[c])) for c in vec.d['elems']])
+    return Obj('vec', elems=[st.alloc(clone(st.heap[c])) for c in slice_cells(I, st, args[0])])
 def m_strvec_push(I, st, fr, callee, args, dty, dest, ret_bb):
     vec = deref(I, st, args[0]); vec.d['elems'] = vec.d['elems'] + [st.alloc(mat(I, st, args[1]))]; return unit()
 
